@@ -267,7 +267,16 @@ func v17ReadCases(out *vOut, r *vRng, n int) {
 	for i := 0; i < n; i++ {
 		// high rates: waits are microseconds; small bursts so that batches are clipped
 		c := v17Cfg{rq: 1, trq: 1}
-		switch r.Intn(4) {
+		ledger := false
+		switch r.Intn(6) {
+		case 4, 5: // negligible refill (2^-20 B/s), bursts that cover everything: the token ledger is observable
+			ledger = true
+			if k := r.Intn(3); k != 1 {
+				c.rp, c.rq, c.rburst = 1, 1<<20, int64(60000+r.Intn(5000))
+			}
+			if k := r.Intn(3); k != 1 || c.rp == 0 {
+				c.trp, c.trq, c.tburst = 1, 1<<20, int64(60000+r.Intn(5000))
+			}
 		case 0: // local only
 			c.rp, c.rburst = int64(20000000+r.Intn(1000000)), int64(1+r.Intn(40))
 		case 1: // total only
@@ -311,6 +320,7 @@ func v17ReadCases(out *vOut, r *vRng, n int) {
 		}
 		var got []byte
 		var ns []int
+		consT, consL := int64(-1), int64(-1)
 		cx := layer4.WrapConnection(inner, nil, zap.NewNop())
 		herr := h.Handle(cx, layer4.HandlerFunc(func(cx *layer4.Connection) error {
 			for _, l := range lens {
@@ -318,6 +328,19 @@ func v17ReadCases(out *vOut, r *vRng, n int) {
 				m, _ := cx.Read(p)
 				ns = append(ns, m)
 				got = append(got, p[:m]...)
+			}
+			if ledger {
+				tc, ok := cx.Conn.(throttledConn)
+				if !ok {
+					return fmt.Errorf("cx.Conn is %T", cx.Conn)
+				}
+				consT, consL = 0, 0
+				if tc.totalLimiter != nil {
+					consT = int64(tc.totalLimiter.Burst()) - int64(math.Round(tc.totalLimiter.Tokens()))
+				}
+				if tc.localLimiter != nil {
+					consL = int64(tc.localLimiter.Burst()) - int64(math.Round(tc.localLimiter.Tokens()))
+				}
 			}
 			return nil
 		}))
@@ -356,8 +379,20 @@ func v17ReadCases(out *vOut, r *vRng, n int) {
 			out.Fail("C17:read:inner-read-count", fmt.Sprintf("%d Reads, %d inner Reads", len(lens), len(inner.asked)), c.coq())
 			continue
 		}
-		out.Case(fmt.Sprintf("CRead %s %s %s %s [%s]", c.coq(), cZ(avail), cZ(int64(chunk2(chunk))), cZList(lens), strings.Join(obs, ";")),
-			"read-sizes", clipped, map[string]any{"cfg": c.coq(), "lens": lens, "obs": obs})
+		cls := "read-sizes"
+		if ledger {
+			cls = "read-ledger"
+			// the property's accounting: each limiter present is charged exactly the batch of every Read
+			var sum int64
+			for _, a := range inner.asked {
+				sum += int64(a)
+			}
+			if (h.totalLimiter != nil && consT != sum) || (h.ReadBurstSize > 0 && consL != sum) {
+				out.Fail("C17:read:tokens-not-charged", fmt.Sprintf("batches sum to %d; total limiter charged %d, per-connection limiter charged %d", sum, consT, consL), c.coq())
+			}
+		}
+		out.Case(fmt.Sprintf("CRead %s %s %s %s [%s] %s %s", c.coq(), cZ(avail), cZ(int64(chunk2(chunk))), cZList(lens), strings.Join(obs, ";"), cZ(consT), cZ(consL)),
+			cls, clipped || ledger, map[string]any{"cfg": c.coq(), "lens": lens, "obs": obs, "consumed_total": consT, "consumed_local": consL})
 	}
 }
 
